@@ -272,7 +272,7 @@ class PFDLTreeVisitor(PFDLParserVisitor):
         if ctx.attribute_access():
             counting_loop.limit = self.visitAttribute_access(ctx.attribute_access())
         else:
-            counting_loop.limit = int(ctx.INTEGER().getText())
+            counting_loop.limit = self.to_integer(ctx.INTEGER(), ctx)
 
         # check if parallel keyword is there
         if ctx.PARALLEL():
@@ -358,9 +358,18 @@ class PFDLTreeVisitor(PFDLParserVisitor):
             return self.visitAttribute_access(ctx.attribute_access())
         return ctx.children[0].getText()
 
+    def to_integer(self, integer_node, ctx) -> int:
+        """Converts an INTEGER token; a literal the interpreter cannot convert is reported."""
+        try:
+            return int(integer_node.getText())
+        except ValueError:
+            # e.g. more digits than Python converts (sys.get_int_max_str_digits())
+            self.error_handler.print_error("The number is too large", context=ctx)
+            return 0
+
     def visitArray(self, ctx: PFDLParser.ArrayContext) -> Union[int, str]:
         if ctx.INTEGER():
-            return int(ctx.INTEGER().getText())
+            return self.to_integer(ctx.INTEGER(), ctx)
         if ctx.STARTS_WITH_LOWER_C_STR():
             return ctx.STARTS_WITH_LOWER_C_STR().getText()
         return -1  # No length specified
